@@ -198,6 +198,8 @@ def check(prop, tier, seed):
             for k in known:
                 if k.get("feat", "v3") == feat and k.get("witness"):
                     lines.append(k["witness"])
+            seen_ids = set()
+            lines = [l for l in lines if not (l.split(" ", 1)[0] in seen_ids or seen_ids.add(l.split(" ", 1)[0]))]
             nlines += len(lines)
             for l in lines:
                 m = re.match(r"id=(\S+)", l)
